@@ -74,10 +74,10 @@ def op_strategy(weights=None):
         "ph_insert": st.tuples(st.just("ph_insert"), I, I, I),
         "set_text": st.tuples(st.just("set_text"), I, I, st.integers(0, 4), T),
         "para_op": st.tuples(st.just("para_op"), I, I, st.integers(0, 5), T),
-        "fmt": st.tuples(st.just("fmt"), I, I, st.integers(0, 30), st.integers(0, 7)),
+        "fmt": st.tuples(st.just("fmt"), I, I, st.integers(0, 31), st.integers(0, 7)),
         "table_op": st.tuples(st.just("table_op"), I, I, st.integers(0, 9), st.integers(0, 5), st.integers(0, 5),
                               st.integers(0, 5), st.integers(0, 5)),
-        "chart_fmt": st.tuples(st.just("chart_fmt"), I, I, st.integers(0, 24), st.integers(0, 6)),
+        "chart_fmt": st.tuples(st.just("chart_fmt"), I, I, st.integers(0, 26), st.integers(0, 6)),
         # few distinct URLs and few target slides so relationships get shared and reference-counted
         "hyperlink": st.tuples(st.just("hyperlink"), st.integers(0, 1), I, st.sampled_from([-1, -1, 0, 0, 0, 1, 1, 2, 3, 4])),
         "run_hyperlink": st.tuples(st.just("run_hyperlink"), st.integers(0, 1), I, st.sampled_from([-1, -1, 0, 0, 0, 1, 1, 2, 3, 4])),
@@ -97,10 +97,15 @@ def op_strategy(weights=None):
         "seq": st.one_of(
             st.tuples(st.just("fmt"), I, I, st.sampled_from([(0, 6), (7, 10), (11, 14), (15, 24), (15, 18), (17, 18)]).flatmap(
                 lambda r: st.lists(st.tuples(st.integers(r[0], r[1]), st.integers(0, 7)), min_size=2, max_size=5))),
-            st.tuples(st.just("chart_fmt"), I, I, st.lists(st.tuples(st.integers(0, 24), st.integers(0, 6)), min_size=2, max_size=5)),
+            st.tuples(st.just("chart_fmt"), I, I, st.lists(st.tuples(st.integers(0, 26), st.integers(0, 6)), min_size=2, max_size=5)),
             st.tuples(st.just("table_op"), I, I, st.lists(st.tuples(st.integers(0, 9), st.integers(0, 5), st.integers(0, 5),
                                                                      st.integers(0, 5), st.integers(0, 5)), min_size=2, max_size=5)),
-        ).map(lambda t: ("seq", [[t[0], t[1], t[2]] + list(x) for x in t[3]])),
+        ).map(lambda t: ("seq", [[t[0], t[1], t[2]] + list(x) for x in t[3]])) | st.tuples(
+            # the life of one chart: added (any of the chart kinds), then its data replaced 1-3 times
+            I, st.integers(0, 16), st.integers(0, 3), st.integers(0, 4), st.integers(0, 3),
+            st.lists(st.tuples(st.integers(1, 3), st.integers(1, 4), st.integers(0, 3)), min_size=1, max_size=3),
+        ).map(lambda t: ("seq", [["add_chart", t[0], t[1], t[2], t[3], t[4]]]
+                                + [["replace_data", t[0], -1, a, b, c] for a, b, c in t[5]])),
         "save": st.tuples(st.just("save")),
         "save_reopen": st.tuples(st.just("save_reopen")),
     }
@@ -626,6 +631,25 @@ class Interp:
                     sh.shadow.inherit = bool(v % 2)
             info.update(slide=sl, target=sh)
             return self._call("fmt_misc%d" % kind, f, rej + (NotImplementedError,))
+        if kind == 31:
+            sh = self._text_target(sl, shape_i)
+            if sh is None:
+                return "skipped"
+            def f():
+                tf = sh.text_frame
+                p = tf.paragraphs[v % len(tf.paragraphs)]
+                r = p.add_run(); r.text = "x"
+                # refused by the attribute conversion itself, on a run that has no a:latin / a:rPr content yet
+                if v % 4 == 0:
+                    r.font.name = "Bad\x01Name"
+                elif v % 4 == 1:
+                    r.font.name = 5
+                elif v % 4 == 2:
+                    p.font.name = "Bad\x00"
+                else:
+                    r.font.size = "12"
+            info.update(slide=sl, target=sh)
+            return self._call("fmt_text31", f, rej)
         # background of the slide, of its layout or of its master (masters usually hold a p:bgRef)
         def f():
             owner = [sl, sl, sl.slide_layout, sl.slide_layout.slide_master][(shape_i + v) % 4]
@@ -829,6 +853,28 @@ class Interp:
                 ch.has_title = True
                 ch.chart_title.has_text_frame = bool(v % 2)
                 ch.chart_title.format.fill.solid()
+            elif kind == 25:
+                # values the attribute's own conversion refuses, assigned where the element they would go into
+                # may not exist yet (a refused call must not leave a half-built element behind)
+                MIXED = XL_LABEL_POSITION.MIXED if hasattr(XL_LABEL_POSITION, "MIXED") else 999983
+                if v == 0 and plot is not None:
+                    plot.has_data_labels = True
+                    plot.data_labels.position = MIXED
+                elif v == 1 and plot is not None:
+                    plot.has_data_labels = True
+                    plot.data_labels.number_format = 42
+                elif v == 2:
+                    ax = axis(1)
+                    if ax is not None:
+                        ax.tick_labels.number_format = 42
+                elif v == 3 and plot is not None and len(plot.series) and _has(plot.series[0], "data_labels"):
+                    plot.series[0].data_labels.position = MIXED
+                elif v == 4 and plot is not None and len(plot.series) and len(plot.series[0].points):
+                    plot.series[0].points[0].data_label.position = MIXED
+                elif v == 5 and ch.has_legend:
+                    ch.legend.position = 999983
+                else:
+                    ch.font.name = "Bad\x01Name"
             else:
                 ax = axis(0)
                 if ax is not None:
